@@ -475,6 +475,16 @@ func c07One(c *ctx, which string, rg *c07Rig, q *c07Req, unrouted *atomic.Int64)
 	t0 := time.Now()
 	resp := rawhttp.Do(c07Dial(rg, q), q.raw(), q.Method)
 	got := rg.up.Take(q.ID)
+	// fabio gives a websocket upstream one second (hard-coded) to answer the handshake; when this process is saturated
+	// (thorough tier: 48 clients moving multi-megabyte bodies under the race detector) the harness upstream can miss that.
+	// Such a handshake is repeated when the load has moved on; only a request that never gets through is reported.
+	for try := 0; q.Route == -2 && got == nil && resp.Status == 0 && try < 3; try++ {
+		c.R.Count("websocket_handshakes_repeated", 1)
+		time.Sleep(time.Duration(500*(try+1)) * time.Millisecond)
+		rg.up.SetScript(q.ID, q.Script)
+		resp = rawhttp.Do(c07Dial(rg, q), q.raw(), q.Method)
+		got = rg.up.Take(q.ID)
+	}
 	in := map[string]any{"Req": c07Describe(q), "Cfg": rg.hc}
 	viol := func(prop, sig, detail string) {
 		if prop == which {
